@@ -170,6 +170,14 @@ def num_binop(E, op, a, b, ka, kb):
             lo, hi = _ival(la, ha, lb, hb, op)
             t = {"+": ta + tb, "-": ta - tb, "*": ta * tb}[op]
             return SInt(t, None, lo, hi)
+        if op == "*" and not is_concrete_num(a) and not is_concrete_num(b):
+            # real x small-range integer: pin the integer when the path condition determines it
+            # (keeps CPR arithmetic linear once the NL band is fixed); forks over its values otherwise
+            for x, y, kx in ((a, b, ka), (b, a, kb)):
+                if isinstance(x, SInt) and x.lo is not None and x.hi is not None and x.hi - x.lo <= 64 \
+                   and not E.merge_depth:
+                    xv = E.concretize_int(x, "integer factor")
+                    return num_binop(E, "*", xv, y, "i", _num_kind(y))
         ta, tb = to_real(a), to_real(b)
         return SReal({"+": ta + tb, "-": ta - tb, "*": ta * tb}[op])
     if op == "/":
@@ -181,7 +189,12 @@ def num_binop(E, op, a, b, ka, kb):
             if isinstance(b, SInt):
                 b = E.concretize_int(b, "divisor")
                 return num_binop(E, op, a, b, ka, "i")
-            if E.decide(b.term == 0):
+            from .interp import _has_transcendental
+            if _has_transcendental(b.term, []):
+                # the divisor comes out of a numpy elementary function: numpy scalars divide to
+                # inf / nan with a warning instead of raising
+                E.trusted.add("division by a numpy scalar does not raise (inf/nan instead)")
+            elif E.decide(b.term == 0):
                 raise PyExc("ZeroDivisionError", "float division by zero")
             return SReal(to_real(a) / b.term)
         if b == 0:
